@@ -39,6 +39,16 @@ pub fn gen_system(rng: &mut Rng, class: &str) -> System {
             with_collapsed_guess(rng, b)
         }
         "disparity" => gen_disparity(rng),
+        "resolve" => {
+            // re-solve from a previous result: contradictory, conflicting, prioritised or plain systems
+            let b = match rng.below(4) {
+                0 => { let b = gen_linear(rng, 4, 6); with_contradictions(rng, b) }
+                1 => { let b = gen_planted(rng, 8, 1e-2, &SHAPES); with_mild_conflicts(rng, b) }
+                2 => { let b = gen_planted(rng, 6, 1e-2, &SHAPES); let b = with_priorities(rng, b); with_contradictions(rng, b) }
+                _ => gen_planted(rng, 6, 0.1, &SHAPES),
+            };
+            with_resolve(b)
+        }
         "conflict" => {
             let b = gen_planted(rng, 8, 1e-2, &SHAPES);
             with_mild_conflicts(rng, b)
@@ -63,7 +73,7 @@ fn main() {
         .get(4)
         .map(|s| s.split(',').map(|x| x.to_owned()).collect())
         .unwrap_or_else(|| {
-            ["planted", "linear", "prio", "contra", "malformed", "caps", "conflict", "disparity", "collapsed", "pinned"]
+            ["planted", "linear", "prio", "contra", "malformed", "caps", "conflict", "disparity", "collapsed", "pinned", "resolve"]
                 .iter()
                 .map(|s| s.to_string())
                 .collect()
